@@ -18,6 +18,9 @@ TARGETED = {
  "C01_r5": ["C01"], "C02_r5": ["C02"], "C03_r5": ["C03"], "C04_r5": ["C04", "C05"], "C05_r5": ["C05"], "C06_r5": ["C06"], "C07_r5": ["C07"],
  "C08_r5": ["C08"], "C09_r5": ["C09"], "C10_r5": ["C10"], "C11_r5": ["C11"], "C12_r5": ["C12", "C16"], "C13_r5": ["C13"], "C14_r5": ["C14"],
  "C15_r5": ["C15"], "C16_r5": ["C16"], "C17_r5": ["C17"], "C18_r5": ["C18"], "C19_r5": ["C19"], "C20_r5": ["C20"],
+ "C01_r6": ["C01"], "C02_r6": ["C02"], "C03_r6": ["C03"], "C04_r6": ["C04"], "C05_r6": ["C05"], "C06_r6": ["C09"], "C07_r6": ["C09"],
+ "C08_r6": ["C08"], "C09_r6": ["C09"], "C10_r6": ["C10"], "C11_r6": ["C11"], "C12_r6": ["C12"], "C13_r6": ["C13"], "C14_r6": ["C14"],
+ "C15_r6": ["C15"], "C16_r6": ["C16"], "C17_r6": ["C17"], "C18_r6": ["C18"], "C19_r6": ["C19", "C01"], "C20_r6": ["C20"],
 }
 STRENGTHENED = {
  "C02": "names with escaped braces added to the C02 / C03 / C17 corpora (first run: missed by C02 and C03)",
@@ -62,6 +65,23 @@ STRENGTHENED = {
  "C15_r5": "every getter of EnumProperty and EnumMessage is also called through &&E, &mut E and Box<E>, and the answers must agree (first run: missed)",
  "C18_r5": "an enum-level prefix next to a custom parse error, and inputs that start with the prefix, added to C18 (first run: missed)",
  "C19_r5": "EnumDiscriminants with only NON-strum derives requested, under every crate-path configuration, added to C19 (first run: missed)",
+ "C02_r6": "spellings of 63 ... 1000 bytes next to short ones added to C01 C02 C16 (first run: missed)",
+ "C03_r6": "variant-level default_with on single-field variants added to C03 (first run: missed)",
+ "C04_r6": "HOSTILE SCOPES: look-alikes of prelude names declared next to the enum; per check the names the unchanged generator is immune to (by experiment) are guarded by twins of corpus definitions (first run: missed)",
+ "C05_r6": "non-generic enums with Rc / Cell payloads (also in a disabled variant): the iterator must still be Send + Sync (first run: missed)",
+ "C06_r6": "#[repr] written in every legal form (several hints, several attributes) added to C06 and C09 — this exposed the genuine defects F12 and F13; the seed was rebased onto the repaired code, where it breaks C09",
+ "C07_r6": "several strum(..) pass-through entries at enum level added to C09 (the seed is about attribute forwarding; C07's own corpus does not derive EnumDiscriminants)",
+ "C08_r6": "foreign attributes on variants (#[deprecated], #[cfg(all())], #[non_exhaustive], #[cfg_attr]) added to C08 (first run: missed)",
+ "C10_r6": "field-less enums with defaulted const parameters added to C10 (first run: missed)",
+ "C11_r6": "hostile scopes (see C04_r6): a look-alike `From` next to the enum (first run: missed)",
+ "C12_r6": "definitions rendered through macro_rules! with every attribute value passed as an expr / literal fragment (first run: missed)",
+ "C13_r6": "tuple variants with 12 / 26 / 27 / 40 fields added to C13 (first run: missed)",
+ "C15_r6": "ascii_case_insensitive flags and case-twin keys added to C15 (first run: missed)",
+ "C16_r6": "enums NAMED like identifiers of the phf prologue (Map, PHF, Entry ...) added to C16 (first run: missed)",
+ "C17_r6": "tuple variants with 12 / 13 fields and two-digit positional placeholders added to C17 (first run: missed)",
+ "C18_r6": "user error functions named like plausible generated helpers (not_found, parse_error, from_str ...) added to C18 (first run: missed)",
+ "C19_r6": "a fifth build configuration in C19: look-alikes of Result / Ok / AsRef / Send / PhantomData next to the enum (first run: caught only by C01's hostile twins)",
+ "C20_r6": "integer props of every size and spelling (above i64, u64::MAX, u128, hex, suffixed) added to C20 (first run: missed)",
 }
 matrix = {}
 mp = os.path.join(V, "matrix.tsv")
@@ -77,7 +97,7 @@ for name in sorted(os.listdir(V)):
     ver = open(os.path.join(d, ".verify")).read().split() if os.path.exists(os.path.join(d, ".verify")) else ["?", "?", "?"]
     notes = open(os.path.join(d, "notes.md")).read() if os.path.exists(os.path.join(d, "notes.md")) else ""
     meta = {
-        "property": name.split("_")[0], "round": 5 if name.endswith("_r5") else 4 if name.endswith("_r4") else (3 if name.endswith("_r3") else (2 if name.endswith("_r2") else 1)),
+        "property": name.split("_")[0], "round": 6 if name.endswith("_r6") else 5 if name.endswith("_r5") else 4 if name.endswith("_r4") else (3 if name.endswith("_r3") else (2 if name.endswith("_r2") else 1)),
         "what_it_needs_to_manifest": notes[:2500],
         "confirmed_on_current_HEAD": {"demo_without_change_rc": ver[0], "existing_suite_with_change_rc": ver[1], "demo_with_change_rc": ver[2],
                                       "how": "tools/seed_verify_all.sh (scratch worktree of /repo HEAD; cargo test -p strum_tests --offline --test seeded_demo before / after "
